@@ -95,13 +95,19 @@ theorem build_ok {tb : Nat} {samples : Array Key} (htb : 1 ≤ tb) (hsz : 1 ≤ 
 
 /-! ### individual `splitter_lcp` entries -/
 
-theorem lcpEntry_mod (a b : Key) : lcpEntry a b % 128 = lcpKeyType a b := by
+/-- the `unsigned char` entry holds flag and value without loss -/
+theorem lcpEntry_def (a b : Key) : lcpEntry a b = lcpKeyType a b + (if lowByte b = 0 then 128 else 0) := by
   unfold lcpEntry
+  have := lcpKeyType_le a b
+  exact u8_of_lt (by split <;> omega)
+
+theorem lcpEntry_mod (a b : Key) : lcpEntry a b % 128 = lcpKeyType a b := by
+  rw [lcpEntry_def]
   have := lcpKeyType_le a b
   split <;> omega
 
 theorem lcpEntry_flag (a b : Key) : lcpEntry a b ≥ 128 ↔ lowByte b = 0 := by
-  unfold lcpEntry
+  rw [lcpEntry_def]
   have := lcpKeyType_le a b
   split <;> rename_i h <;> simp [h] <;> omega
 
